@@ -15,6 +15,7 @@ func checkC04(c *an.Ctx) {
 	c.Rule("C04.2", "inside the scheduling loop nothing waits for launched work: no WaitGroup.Wait, channel operation, lock or Cond.Wait on the loop's blocks or in functions called synchronously from them (the condition-error cancel path is covered by C03.5)")
 	c.Rule("C04.3", "in the stage goroutine no synchronisation operation (lock, channel operation, wait) is executed before or around the runner call")
 	c.Rule("C04.4", "one pass visits every node: the launch sits in a range over Nodes() of the scheduled graph and the per-stage loop has no exit other than exhaustion")
+	c.Rule("C04.5", "eligibility is acted on in the pass that sees it (E2 scheduling table): every waiting stage whose condition holds (or is absent) and whose gate says yes is launched on every path of the iteration, and a stage whose condition is false is marked Skipped there and then, before the dependency gate is consulted, so that its dependents become eligible without waiting for unrelated stages")
 	c.NotDecided = append(c.NotDecided, "actual overlap in time (OS scheduling)", "the 50 ms pass period")
 	p := c.P
 	schedule := p.Func("pkg/scheduler", "Scheduler", "Schedule")
@@ -50,6 +51,9 @@ func checkC04(c *an.Ctx) {
 	inLoop := s.launchFn != s.loopFn || s.inner.Blocks[s.launch.Block()] // (a helper called from the loop is inside it)
 	c.Check(inLoop, "C04.1", an.Short(s.launchFn)+":launch-in-loop", s.launch.Pos(), "the go statement is inside the per-stage loop", "the go statement is outside the per-stage loop")
 
+	// C04.5
+	checkSchedTable(c, s, "C04.5", map[string]bool{"launch": true, "skip": true})
+
 	// C04.2
 	loop := s.outer
 	if loop == nil {
@@ -61,6 +65,9 @@ func checkC04(c *an.Ctx) {
 		n++
 		if op.Kind == "sleep" {
 			return
+		}
+		if (op.Kind == "lock" || op.Kind == "rlock") && leafMutex(p, groupKey(op.OnVal)) {
+			return // a leaf lock around a few loads and stores: nothing is waited for while it is held
 		}
 		badWait = true
 		c.Bad("C04.2", an.Short(fn)+":"+op.Kind+"("+groupKey(op.OnVal)+")", op.Instr.Pos(), "the scheduling loop can block on %s %s%s before the next pass: stages that became eligible meanwhile are not started", op.Kind, op.On, via)
@@ -134,6 +141,9 @@ func checkC04(c *an.Ctx) {
 		}
 		for _, op := range an.BlockingOps(f) {
 			if op.Kind == "sleep" {
+				continue
+			}
+			if (op.Kind == "lock" || op.Kind == "rlock") && leafMutex(p, groupKey(op.OnVal)) {
 				continue
 			}
 			// after the runner call has returned it no longer serialises the tasks
